@@ -210,7 +210,7 @@ func init() {
 	eng.Register(&eng.Check{
 		ID: "C07", Level: "exploration", Pre: WriteCorpusCache, HangBound: 120 * time.Second,
 		Rule: "token strings over Σ_t (len ≤ 3 quick / 4 thorough); statement sequences over the full-language alphabet (every reserved keyword × 18 value shapes, every style keyword × 7 shapes, d2-config keys × 10 shapes, 260 structural statements: globs × filters, vars/spreads, imports, boards, classes, underscores, special shapes) of length ≤ 2 and over the structural core of length ≤ 2 (quick) / 3 (thorough); all assignments of import statements to ≤3 files (every cycle length); non-ASCII names under glob patterns; a size family (14 generators × 10^1..10^4); corpus + single-token neighbours. Each compiled with an in-memory file set by d2compiler.Compile. Non-trivial: every compile is (distinct inputs by construction); outcome classes = distinct (object/edge/board counts | error message lists)",
-		Assumptions: []string{"the time clause is decided as a hang/blow-up detector (120 s per input, sizes up to 10^4), not as a proportionality measurement", "a worker death (stack overflow / OOM) is attributed to the input in flight", "board nesting depth is capped at 100 (quick) / 1000 (thorough) in the size family: compile time was measured quadratic in the nesting depth of boards, which a hang detector cannot classify soundly"},
+		Assumptions: []string{"the time clause is decided as a hang/blow-up detector (120 s per input, sizes up to 10^4), not as a proportionality measurement", "a worker death (stack overflow / OOM) is attributed to the input in flight", "nesting depth (boards, maps, key paths) is capped at 100 (quick) / 1000 (thorough) in the size family: compile time was measured quadratic in the nesting depth, which a hang detector cannot classify soundly"},
 		Oracles: map[string]eng.Oracle{"compile": c07Compile, "fileset": c07FileSet, "size": c07Size},
 		Run: func(w *eng.W) {
 			for k := 1; k <= w.Pick(3, 4); k++ {
@@ -323,8 +323,8 @@ func init() {
 				sort.Strings(gens)
 				for _, g := range gens {
 					for _, n := range []int{10, 100, 1000, w.Pick(3000, 10000)} {
-						if g == "nested-boards" {
-							n = n / w.Pick(30, 10) // measured quadratic in the nesting depth (0.5 s at 100, 52 s at 800): kept small, see Assumptions
+						if g == "nested-boards" || g == "deep-maps" || g == "deep-keys" {
+							n = n / w.Pick(30, 10) // measured quadratic in the nesting depth (boards: 0.5 s at 100, 52 s at 800; maps: 4 s at 1000, 27 s at 3000 on a loaded machine): kept small, see Assumptions
 							if n < 1 {
 								n = 1
 							}
